@@ -113,8 +113,18 @@ def run(ctx):
             if not abs((np.abs(a) ** 2).sum() - p) <= 1e-12 * p:
                 ctx.violation({'kind': 'normalize_power', 'dtype': kind}, {'target': p, 'power': float((np.abs(a) ** 2).sum())}, case=None)
                 continue
+            # the aperture may be cut into segments, also into segments whose masks share a column of samples (as closely packed
+            # antialiased segment masks do): the power that reaches the image does not depend on how the aperture is described
+            segm = None
+            sup_ = np.abs(np.asarray(a)) > 0
+            if gi % 3 == 0 and sup_.shape[1] >= 3:
+                c0_ = sup_.shape[1] // 2
+                cols_ = np.arange(sup_.shape[1])[None, :]
+                left_, right_ = sup_ & (cols_ <= c0_), sup_ & (cols_ >= c0_ - (gi % 2))
+                if left_.sum() >= 2 and right_.sum() >= 2 and (left_ & right_).any() and (right_ & ~left_).sum() >= 2:
+                    segm = np.array([left_, right_]).astype(int)
             pl = lentil.Pupil(amplitude=a, opd=g['opd'] * float(g['lam']) / g['N'], pixelscale=(float(g['dx'][0]), float(g['dx'][1])),
-                              focal_length=float(g['z']))
+                              focal_length=float(g['z']), **({} if segm is None else {'mask': segm}))
             w = lentil.Wavefront(float(g['lam'])) * pl
             full = (g['Kr'] // g['os'], g['Kc'] // g['os'])
             for fn in ('dft', 'fft', 'fft-large-scratch'):
@@ -127,7 +137,8 @@ def run(ctx):
                     o = lentil.propagate_fft(w, pixelscale=(float(g['du'][0]), float(g['du'][1])), shape=full, oversample=g['os'], scratch=scr)
                 t = float(o.intensity.sum())
                 if abs(t - p) > 1e-9 * p:
-                    ctx.violation({'kind': 'normalized-amplitude-images-to-p', 'fn': fn, 'os': g['os']}, {'target': p, 'total': t, 'K': [g['Kr'], g['Kc']]}, case=None)
+                    ctx.violation({'kind': 'normalized-amplitude-images-to-p', 'fn': fn, 'os': g['os'], 'segments_share_samples': segm is not None},
+                                  {'target': p, 'total': t, 'K': [g['Kr'], g['Kc']]}, case=None)
         except Exception as ex:
             ctx.violation({'kind': 'normalize-section-' + type(ex).__name__, 'dtype': kind}, {'error': repr(ex)[:300], 'K': [g['Kr'], g['Kc']]}, case=None)
     ox.binding_selftest(ctx, lentil, cases[0], spec[cases[0]['id']])
